@@ -1,6 +1,7 @@
 /* Tie for coq/Agent/CheckListModel.v: the real (mostly static) check-list functions of agent/conncheck.c on fabricated check lists.
  *
- * line:  <id> <op> <a1> <a2> <a3> <a4>  A <rfc> <ctl> <disc>  { S <creds> <ncomp> { C <state> <sel> <hasremote> }*ncomp  <npairs>
+ * line:  <id> <op> <a1> <a2> <a3> <a4>  A <rfc> <ctl> <disc>  { S <creds> <ncomp> { C <state> <sel> <selloc> <selrem> <hasremote> }*ncomp  <npairs>
+ *                 (sel = selected_pair.priority; selloc / selrem = local / remote candidate of the selected pair, 0 = NULL)
  *                 { P <pid> <comp> <lf> <rf> <loc> <rem> <prio> <state> <nom> <valid> <usec> <mnora> <retrans> <stun> <trig> <disc> }*npairs }*
  *        pair state letters: Z frozen, W waiting, I in-progress, S succeeded, F failed, D discovered.
  *  ops:  un               priv_conn_check_unfreeze_next (agent)
@@ -13,7 +14,8 @@
  *        pr <si> <cid>    priv_prune_pending_checks (agent, stream, component)                   ret = its result
  *        fr <si> <cid>    conn_check_update_check_list_state_for_ready (agent, stream, component)
  *        mn <si> <cid> <loc> <rem>   priv_mark_pair_nominated (agent, stream, component, localcand, remotecand)
- * out:   <id> <ret> { S <pid>:<state><nom><valid><usec><mnora><retrans><stun><trig>,... | <cstate>:<sel>,... } # <si>.<cid>.<state>,...
+ * out:   <id> <ret> { S <pid>:<state><nom><valid><usec><mnora><retrans><stun><trig>,... | <cstate>:<sel>:<selloc>:<selrem>,... } # <si>.<cid>.<state>,...
+ *        (signals in emission order; state 100 = new-selected-pair)
  *        or "<id> Fault" when a g_assert of the code under test failed. */
 #include "hcommon.h"
 #include "agent/conncheck.c"
@@ -35,6 +37,10 @@ static CandidateCheckPair *ptr_of (int pid) { for (int i = 0; i < npt; i++) if (
 static void on_state (NiceAgent *a, guint sid, guint cid, guint st, gpointer u)
 { (void) a; (void) u; int si = -1; for (int i = 0; i < MAXS; i++) if (SID[i] == sid) si = i;
   size_t l = strlen (sigbuf); snprintf (sigbuf + l, sizeof sigbuf - l, "%d.%u.%u,", si, cid, st); }
+
+static void on_selected (NiceAgent *a, guint sid, guint cid, gchar *lf, gchar *rf, gpointer u)
+{ (void) a; (void) u; (void) lf; (void) rf; int si = -1; for (int i = 0; i < MAXS; i++) if (SID[i] == sid) si = i;
+  size_t l = strlen (sigbuf); snprintf (sigbuf + l, sizeof sigbuf - l, "%d.%u.100,", si, cid); }
 
 static NiceCandidate *cand (int remote, guint sid, int comp, int idn, int fnd, int creds)
 {
@@ -63,6 +69,7 @@ int main (void)
     NiceAgent *ag = nice_agent_new (g_main_context_default (), rfc ? NICE_COMPATIBILITY_RFC5245 : NICE_COMPATIBILITY_GOOGLE);
     g_object_set (ag, "controlling-mode", ctl, "upnp", FALSE, NULL);
     g_signal_connect (ag, "component-state-changed", G_CALLBACK (on_state), NULL);
+    g_signal_connect (ag, "new-selected-pair", G_CALLBACK (on_selected), NULL);
     NiceStream *ST[MAXS]; int ns = 0, discl[MAXS * MAXP][2], ndl = 0; GSList *rem[MAXS][8]; memset (rem, 0, sizeof rem);
     npt = 0; ncands = 0; sigbuf[0] = 0; memset (SID, 0, sizeof SID);
     char *t;
@@ -71,7 +78,9 @@ int main (void)
       agent_lock (ag); NiceStream *st = agent_find_stream (ag, sid); ST[ns] = st;
       if (creds) { g_strlcpy (st->remote_ufrag, "rufrag", NICE_STREAM_MAX_UFRAG); g_strlcpy (st->remote_password, "rpasswordrpasswordrpass", NICE_STREAM_MAX_PWD); }
       for (int c = 1; c <= nc; c++) { TOK; NiceComponent *cm = nice_stream_find_component_by_id (st, c);
-        cm->state = INT; cm->selected_pair.priority = strtoull (TOK, NULL, 10);
+        cm->state = INT; cm->selected_pair.priority = strtoull (TOK, NULL, 10); int sl = INT, sr = INT;
+        if (sl) cm->selected_pair.local = (NiceCandidateImpl *) cand (0, sid, c, sl, sl, creds);
+        if (sr) cm->selected_pair.remote = (NiceCandidateImpl *) cand (1, sid, c, sr, sr, creds);
         if (INT) rem[ns][c] = g_slist_prepend (NULL, cand (1, sid, c, 900, 900, creds)); }
       int np = INT;
       for (int k = 0; k < np; k++) { TOK; CandidateCheckPair *p = g_slice_new0 (CandidateCheckPair);
@@ -121,7 +130,9 @@ int main (void)
         fprintf (hc_out, "%d:%c%d%d%d%d%d%d%d,", pid_of (p), priv_state_to_gchar (p->state), !!p->nominated, !!p->valid, !!p->use_candidate_on_next_check, !!p->mark_nominated_on_response_arrival,
                  !!p->retransmit, p->stun_transactions != NULL, g_slist_find (ag->triggered_check_queue, p) != NULL); }
       fprintf (hc_out, " | ");
-      for (guint c = 1; c <= st->n_components; c++) { NiceComponent *cm = nice_stream_find_component_by_id (st, c); fprintf (hc_out, "%d:%" G_GUINT64_FORMAT ",", (int) cm->state, (guint64) cm->selected_pair.priority);
+      for (guint c = 1; c <= st->n_components; c++) { NiceComponent *cm = nice_stream_find_component_by_id (st, c); fprintf (hc_out, "%d:%" G_GUINT64_FORMAT ":%d:%d,", (int) cm->state, (guint64) cm->selected_pair.priority,
+          cm->selected_pair.local ? (int) nice_address_get_port (&cm->selected_pair.local->c.addr) - 1000 : 0,
+          cm->selected_pair.remote ? (int) nice_address_get_port (&cm->selected_pair.remote->c.addr) - 1000 : 0);
         g_slist_free (cm->remote_candidates); cm->remote_candidates = NULL; if (cm->selected_pair.remote_consent.tick_source) { g_source_destroy (cm->selected_pair.remote_consent.tick_source); g_source_unref (cm->selected_pair.remote_consent.tick_source); }
         memset (&cm->selected_pair, 0, sizeof cm->selected_pair); } }
     fprintf (hc_out, " # %s\n", sigbuf[0] ? sigbuf : "-");
